@@ -105,6 +105,7 @@ type TypeContract struct {
 	Protects   map[string]string     // field -> mutex: the (externally synchronised) object the field points to is protected by mu
 	Sinks      map[string]string     // field -> mutex ("" = none declared): shared sinks written by concurrent requests
 	ExtSync    bool
+	Shared     bool // instances serve concurrent requests: undeclared field writes are reported in every property
 	Mutators   map[string]bool // methods that mutate an extsync object
 	SetupOnly  map[string]bool // methods that are set-up calls (may write immutable fields)
 	InsertOnly map[string]bool // map fields: entries are only ever added
@@ -147,7 +148,7 @@ type Contracts struct {
 	Nclause    int
 }
 
-var keywordRe = regexp.MustCompile(`^(spec|pred|axiom|lemma|theorem|globalinv|stablekeys|type|func|iface|functype|extern|props|atomic|holds_read|holds|at_call|after_call|requires|ensures|ensures_panic|ghost_ensures|modifies|loop|assume|nopanic|maypanic|trusted|pure|readsclock|noaxioms|onlyaxioms|wiring|params|immutable|stable|guards|sink|protects|guarded_by|ghost|lockinv|extsync|mutators|insert_only|setup|strings|noinline)\b`)
+var keywordRe = regexp.MustCompile(`^(spec|pred|axiom|lemma|theorem|globalinv|stablekeys|type|func|iface|functype|extern|props|atomic|holds_read|holds|at_call|after_call|requires|ensures|ensures_panic|ghost_ensures|modifies|loop|assume|nopanic|maypanic|trusted|pure|readsclock|noaxioms|onlyaxioms|wiring|params|immutable|stable|guards|sink|protects|guarded_by|ghost|lockinv|extsync|mutators|insert_only|setup|shared|strings|noinline)\b`)
 
 var labelRe = regexp.MustCompile(`^([A-Za-z_][A-Za-z_0-9]*):([^:]|$)`)
 var propsRe = regexp.MustCompile(`^\{([A-Z0-9, ]+)\}\s*`)
@@ -189,6 +190,13 @@ func (cs *Contracts) LoadContractFile(path, pkg string) error {
 		if keywordRe.MatchString(t) || len(lines) == 0 {
 			lines = append(lines, rawLine{t, n})
 		} else {
+			// a continuation line; after a block header (type / func / extern / iface / functype) or an attribute
+			// without arguments it can only be a misspelt keyword, which would silently drop the rest of the block
+			prev := lines[len(lines)-1].text
+			switch keywordRe.FindString(prev) {
+			case "type", "func", "extern", "iface", "functype", "trusted", "nopanic", "maypanic", "shared", "extsync", "strings", "readsclock", "pure", "noinline":
+				return fmt.Errorf("%s:%d: unknown keyword in %q (after %q)", path, n, t, prev)
+			}
 			lines[len(lines)-1].text += " " + t
 		}
 	}
@@ -395,6 +403,11 @@ func (cs *Contracts) LoadContractFile(path, pkg string) error {
 				return err
 			}
 			curT.LockInv[m[1]] = append(curT.LockInv[m[1]], &LockInv{Self: m[2], C: c})
+		case "shared":
+			if curT == nil {
+				return fail(l, "shared outside type")
+			}
+			curT.Shared = true
 		case "extsync":
 			if curT == nil {
 				return fail(l, "extsync outside type")
